@@ -100,6 +100,12 @@ struct L11 : Listener {
             tag = std::string("Data::frame/") + idxClassName(cls);
             if (!checkIdx(i, "Data::frame", idx, nF, idx < nF ? frameText(s.frames[idx]) : "", p)) return;
             if (!p.threw && p.addr != &c.data().frames()[idx]) { fail(i, "Data::frame(idx) is not frames()[idx]"); return; }
+            {   // standalone copy of the data set: non-const accessor
+                ezc3d::DataNS::Data copy(c.data());
+                Probe p2 = probe([&](Probe &P) { auto &F = copy.frame_nonConst(idx); P.desc = frameText(takeFrame(F)); });
+                if (!checkIdx(i, "Data::frame_nonConst", idx, nF, idx < nF ? frameText(s.frames[idx]) : "", p2)) return;
+                if (copy.nbFrames() != nF) { fail(i, "copy of Data has a different number of frames"); return; }
+            }
             break; }
         case 1: {   // Points::point(idx), point_nonConst(idx)
             size_t n = sfr.pts.size(), idx = pickIndex(cls, kk, n);
